@@ -128,9 +128,9 @@ def r1(R1, cfg, F, hr):
                 ok = len(cc) == 1 and cc[0].callee.args[-1:] == ['T'] and b.access_path(cc[0].args[1]) == ['arg2']
                 R1.check(ok, cfg, b.path, 'passes-own-T-and-id', '`%s` must query its own type parameter and id' % b.path, b.loc())
                 continue
-            ok = len(tid) == 1 and tid[0].callee.args == ['T']
+            ok = all(x.callee.args == ['T'] for x in tid)
             core = [c for c in b.calls() if c.callee and (core_of(c.callee.best) or core_of(c.callee.defp))]
-            ok = ok and len(core) == 1 and b.access_path(core[0].args[1]) == ['arg2'] and b.access_path(core[0].args[2]) == ['call@bb%d' % tid[0].bb]
+            ok = ok and len(core) == 1 and b.access_path(core[0].args[1]) == ['arg2'] and b.access_path(core[0].args[2]) in [['call@bb%d' % x.bb] for x in tid]
             R1.check(ok, cfg, b.path, 'passes-TypeId::of::<T>-and-id', '`%s` must pass its id parameter and TypeId::of::<T>() to the map' % b.path, b.loc())
         for op, dirty in (('load_dir', 'dirs::Directory<T>'), ('load_rec_dir', 'dirs::RecursiveDirectory<T>')):
             b = F.body(prefix + op)
